@@ -1299,9 +1299,9 @@ def oracle(c, obs):
         if inserted or rows:
             return "executemany with 0 parameter sets inserted %d row(s) and returned %d" % (len(inserted), len(rows))
         return None
+    if cfg["page_size"] <= 0 or (cfg["max_params"] and cfg["total_params"] > cfg["max_params"]):
+        return None  # outside the property: page size < 1 / a single row already exceeds the parameter limit
     if status in (1, 6):
-        if cfg["page_size"] <= 0 or (cfg["max_params"] and cfg["total_params"] > cfg["max_params"]):
-            return None  # page size < 1 / a single row already exceeds the parameter limit
         return "status %d with page_size %d" % (status, cfg["page_size"])
     if status in (4, 5):
         sents = [tuple(tp[p] for p in sent_pos) for tp in tuples]
